@@ -2,6 +2,9 @@
 from contracts import c15_dictlist, c17_cyclefree as C  # noqa
 from contracts import c17_loopless as CL
 from contracts import c17_addloopless as CA
+from contracts import w_reaction_sides as WRS
+from contracts import c17_lrc as LRC
+from contracts import w_model_boundary as WMB
 from props._generic import run_property, replay_with_driver
 
 LEVEL = "other"
@@ -15,7 +18,17 @@ def _lemmas():
 
 
 def run(rep):
-    run_property(rep, KEYS, hooks=C.HOOKS, lemmas=_lemmas, more=[(KEYS_SOLUTION, CL.HOOKS), (KEYS_MILP, CA.HOOKS)], explanation=(
+    run_property(rep, KEYS, hooks=C.HOOKS, lemmas=_lemmas, more=[(KEYS_SOLUTION, CL.HOOKS), (KEYS_MILP, CA.HOOKS), (["Reaction.boundary@getter:body"], WRS.HOOKS), (LRC.KEYS, LRC.HOOKS), (WMB.KEYS, WMB.HOOKS)], explanation=(
+        "linear_reaction_coefficients(model) (an assumed contract until round 5) is proved against its body with its documented "
+        "post-condition unchanged (loop invariant over model.reactions: exactly the reactions whose forward variable has a non-zero "
+        "objective coefficient that is the negative of the reverse variable's, value = that coefficient; a new dict; nothing written) "
+        "under the stated precondition that model.reactions is well formed and every listed reaction belongs to a model - obliged at "
+        "the call site in loopless_solution, whose own precondition provides it. Model.boundary is proved to return a new list of "
+        "exactly the reactions of model.reactions whose boundary flag holds, in model order. "
+        "What the ghost flag is_boundary MEANS is proved on the real body of Reaction.boundary (with the real reactants / products "
+        "bodies inlined): True - and one of the two sides empty, as documented - for a reaction with exactly one stored metabolite, "
+        "False for any other number of metabolites (the code's reading; the docstring's 'either no products or reactants' would also "
+        "accept two reactants and no product: documentation mismatch, reported). "
         "Deductive (kernel): loopless._add_cycle_free is proved, for models with any number of reactions (loop invariant over the "
         "reaction list) and every feasible finite starting flux vector, to give each boundary reaction bounds (v,v) and each internal "
         "reaction (max(0,lb), min(v,ub)) for v>=0 resp. (max(v,lb), min(0,ub)) for v<0 and to touch no other reaction; six glue lemmas "
@@ -45,9 +58,9 @@ def run(rep):
         "numpy.array(<list>) selects exactly the internal columns (opaque conversion), nullspace (SVD) and the adequacy of the "
         "thresholding, normalize_cutoff's value, loopless_fva_iter, reverting on context exit (C03 / C13): bounded driver (ring "
         "models in all reversibility patterns against exact LP cycle-removal tests and brute-force sign patterns)."),
-        trusted=["Reaction.boundary (ghost flag), optlang objective calls (assumed)", "GLPK (assumed, monitored)",
+        trusted=["the abstraction step only: the ghost flag is_boundary of a symbolic reaction stands for the value proved in contracts/w_reaction_sides.py (Reaction.boundary itself is no longer assumed); optlang objective calls (assumed)", "GLPK (assumed, monitored)",
                  "numpy SVD null space and zero_cutoff thresholding in add_loopless",
-                 "linear_reaction_coefficients (assumed contract: the model's reactions with a linear objective coefficient)",
+                 "sympy as_coefficients_dict of the objective expression = the ghost coefficient map objc restricted to its non-zero entries (leaf of the PROVED linear_reaction_coefficients)",
                  "Model.optimize at the call site = its C04 contract + the Solution get_solution assembles (fluxes keyed by all reaction ids)",
                  "sum() over a dict enumeration = an uninterpreted finite sum SIGMA(key set, summand) (order independence: reals, no rounding)",
                  "optlang / numpy / pandas constructors and operators as uninterpreted terms; model.add_cons_vars and "
